@@ -142,7 +142,7 @@ ApplyEdit(leaf, e) ==
 (* 4. Locations: where a leaf sits in the one-operation document           *)
 (***************************************************************************)
 ParamLocs == {"query", "header", "path", "formData"}
-BodyLocs  == {"body_prop", "body_ref_prop", "body_allof_prop", "body_own_allof", "body_own_allofref", "body_items", "body_nested", "body_root"}
+BodyLocs  == {"body_prop", "body_ref_prop", "body_ref_ref_prop", "body_ref_items_ref", "body_allof_prop", "body_own_allof", "body_own_allofref", "body_items", "body_nested", "body_root"}
 RespLocs  == {"resp_prop"}
 Locs      == ParamLocs \cup BodyLocs
 
@@ -169,6 +169,14 @@ Embed(loc, leaf, req, cf) ==
     [] loc = "body_prop"  -> Put(BaseAOS, "body", ObjWith(leaf, req))
     [] loc = "body_ref_prop" ->
          Put([BaseAOS EXCEPT !.defs = [D |-> ObjWith(leaf, req)]], "body", [ref |-> "D"])
+    \* the leaf sits in a definition reached through a chain of two $refs (body -> D -> inner -> E),
+    \* resp. through the items of an array property of a referenced definition
+    [] loc = "body_ref_ref_prop" ->
+         Put([BaseAOS EXCEPT !.defs = [D |-> [type |-> "object", properties |-> [inner |-> [ref |-> "E"], q |-> [type |-> "string"]]],
+                                       E |-> ObjWith(leaf, req)]], "body", [ref |-> "D"])
+    [] loc = "body_ref_items_ref" ->
+         Put([BaseAOS EXCEPT !.defs = [D |-> [type |-> "object", properties |-> [list |-> [type |-> "array", items |-> [ref |-> "E"]]]],
+                                       E |-> ObjWith(leaf, req)]], "body", [ref |-> "D"])
     [] loc = "body_allof_prop" ->
          Put([BaseAOS EXCEPT !.defs = [D |-> [type |-> "object", properties |-> [q |-> [type |-> "string"]]]]],
              "body", [allOf |-> <<[ref |-> "D"], ObjWith(leaf, req)>>])
@@ -208,9 +216,13 @@ WrapBody(loc, v) ==
   CASE loc = "body_root"  -> v
     [] loc = "body_items" -> Arr(<<v>>)
     [] loc = "body_nested" -> Obj([o |-> Obj([p |-> v])])
+    [] loc = "body_ref_ref_prop" -> Obj([inner |-> Obj([p |-> v])])
+    [] loc = "body_ref_items_ref" -> Obj([list |-> Arr(<<Obj([p |-> v])>>)])
     [] OTHER -> Obj([p |-> v])
 EmptyBody(loc) ==
   CASE loc = "body_nested" -> Obj([o |-> Obj(<<>>)])
+    [] loc = "body_ref_ref_prop" -> Obj([inner |-> Obj(<<>>)])
+    [] loc = "body_ref_items_ref" -> Obj([list |-> Arr(<<Obj(<<>>)>>)])
     [] loc = "body_items" -> Arr(<<>>)
     [] OTHER -> Obj(<<>>)
 
